@@ -211,6 +211,34 @@ def run(prog, chk):
         outv = unparse(rets[0].ast.value)
     ok = ok and outv is not None and f5.dominated(rs, guard_edge=f5.edge_guard(lambda x: unparse(x) in ("len(%s) == 0" % outv, "not %s" % outv), "T"))
     chk.ob("R5.need-rekey-only-when-idle", "read_all", ok, ra.loc, "raised only under check_rekey and nothing read yet and a pending rekey, on a timeout")
+    # "nothing read yet" is per call of read_all: inside read_message only the read that fetches the *first* block of a
+    # packet may be interrupted; every later read of the same packet runs with check_rekey false (explicitly or by default)
+    default_cr = None
+    a_ = ra.node.args
+    names_ = [x.arg for x in a_.args]
+    if cr in names_:
+        k_ = names_.index(cr) - (len(names_) - len(a_.defaults))
+        if 0 <= k_ < len(a_.defaults) and isinstance(a_.defaults[k_], ast.Constant):
+            default_cr = a_.defaults[k_].value
+    rm5 = prog.func("Packetizer.read_message")
+    fm5 = Flow(prog, rm5, implicit=False)
+    calls5 = sorted(fm5.nodes_with_call(name="self.read_all"), key=lambda nc: (nc[1].lineno, nc[1].col_offset))
+    chk.floor("R5", "read_all calls in read_message", len(calls5), 3)
+    first = None
+    for (n_, c_) in calls5:
+        # the first-block read: not dominated by any other read_all call
+        if not any(o is not n_ and fm5.dominated([n_], guard_nodes=[o]) for (o, oc) in calls5 if oc is not c_):
+            first = c_ if first is None else first
+    for i_, (n_, c_) in enumerate(calls5):
+        eff = default_cr
+        if len(c_.args) > 1 and isinstance(c_.args[1], ast.Constant):
+            eff = c_.args[1].value
+        for kw in c_.keywords:
+            if kw.arg == cr:
+                eff = kw.value.value if isinstance(kw.value, ast.Constant) else "?"
+        want = c_ is first
+        chk.ob("R5.need-rekey-only-when-idle", "read_message:read_all#%d" % i_, (bool(eff) is True) == want if eff in (True, False) else False, fm5.where(c_),
+               "%s runs with check_rekey=%r (%s)" % (unparse(c_)[:60], eff, "first block of a packet: may be interrupted" if want else "rest of a packet: must not be interrupted"))
     calls = fr.nodes_with_call(name="self.read_all")
     withck = [(n, c) for (n, c) in calls if M.arg(c, 1, "check_rekey") is not None and
               isinstance(M.arg(c, 1, "check_rekey"), ast.Constant) and M.arg(c, 1, "check_rekey").value is True]
